@@ -2,9 +2,11 @@
    Statements only.  hpgeom's RING<->NEST reordering, angle_to_pixel and interpolation weights are
    oracles (validated on every run); healsparse's own logic is plumbing around them: a dense
    HEALPix array is the L0 state itself, so conversion to a sparse map and back is the refinement
-   of C01 read at every pixel, with the UNSEEN test deciding validity. *)
+   of C01 read at every pixel, with the UNSEEN test deciding validity (DenseProofs.v: the constructor
+   from a dense array, as pre-allocation of the valid entries' coverage pixels plus one replace-update,
+   and the export). *)
 From Coq Require Import QArith.
-From HS Require Import Prelude Cov Map Spec Ops Spec2 Params AtFold MapProofs UpdateProofs HistoryProofs Exec Exec2 ExecProofs.
+From HS Require Import Prelude Cov Map Spec Ops Spec2 Params AtFold MapProofs UpdateProofs HistoryProofs DenseProofs Exec Exec2 ExecProofs.
 Open Scope Z_scope.
 
 Section C16.
@@ -36,6 +38,28 @@ Qed.
 
 End C16.
 
+(* the constructor from a dense array at the layout level: a well-formed map reading A[p] at every valid
+   entry and the sentinel elsewhere, for any array and any pre-allocated coverage list *)
+Theorem C16_map_from_a_dense_array_reads_the_array :
+  forall (P : params) (isval : p_V P -> bool) (ncv nf : Z) (sentinel : p_V P) (covs : list Z) (A : list (p_V P)),
+    0 <= ncv -> 0 < nf -> zlen A = ncv * nf -> p_valid P sentinel = false -> covpix_ok ncv (Some covs) ->
+    wf P (from_dense P isval ncv nf sentinel covs A) /\
+    npix (p_V P) (from_dense P isval ncv nf sentinel covs A) = ncv * nf /\
+    forall p, 0 <= p < ncv * nf ->
+      read (p_V P) (p_dv P) (from_dense P isval ncv nf sentinel covs A) p =
+      if isval (znth (p_dv P) A p) then znth (p_dv P) A p else sentinel.
+Proof. exact from_dense_read. Qed.
+
+(* dense -> sparse map -> dense (generate_healpix_map) reproduces the array when its invalid entries are
+   UNSEEN and its valid entries differ from the map's sentinel *)
+Theorem C16_dense_to_map_to_dense_is_the_identity :
+  forall (P : params) (isval : p_V P -> bool) (ncv nf : Z) (sentinel unseen : p_V P) (covs : list Z) (A : list (p_V P)),
+    0 <= ncv -> 0 < nf -> zlen A = ncv * nf -> p_valid P sentinel = false -> covpix_ok ncv (Some covs) ->
+    (forall p, 0 <= p < ncv * nf -> isval (znth (p_dv P) A p) = true -> p_valid P (znth (p_dv P) A p) = true) ->
+    (forall p, 0 <= p < ncv * nf -> isval (znth (p_dv P) A p) = false -> znth (p_dv P) A p = unseen) ->
+    DenseProofs.to_dense P unseen (from_dense P isval ncv nf sentinel covs A) = A.
+Proof. exact dense_sparse_dense. Qed.
+
 (* interpolation: with all four neighbours valid the value is the weighted mean with the library's
    weights; with allow_partial only the valid neighbours enter; no valid neighbour gives UNSEEN
    (the executable definition is the interpreter's op 33; here its two validity rules on one
@@ -52,4 +76,6 @@ Proof. vm_compute. split; reflexivity. Qed.
 
 Print Assumptions C16_dense_sparse_dense_roundtrip.
 Print Assumptions C16_ring_calls_are_nest_calls_on_converted_pixels.
+Print Assumptions C16_map_from_a_dense_array_reads_the_array.
+Print Assumptions C16_dense_to_map_to_dense_is_the_identity.
 Print Assumptions C16_hypotheses_satisfiable.
